@@ -10,6 +10,8 @@
      I n d                 -> min max diag off out            (ui_params, affine on every element)
      L lam n d o | .. | X | Y || mat(o*d) | off(o)            -> grad (o*(d+1)): lr_grad at the returned weights
      W/Z tv n d || rows | mat(rows*d) | off(rows)             -> coff omean ocov: center_off, mean and covariance of lin on the data
+       Z with 5 more sections | on | oD | oU | epsm | tv  (recorded answer of the eigen-decomposition on the covariance matrix)
+                                                               -> zW(d*d) zoff(d) zmet: C15ZcaModel.zca_train with the recorded oracle ("zW=NONE": exception)
      P wh m n d || k | ev(k) | evec(d*k)                      -> mean gram eigres(k*d)
        with 5 more sections  | on | oD(on) | oU(on*on) | epsm | cut   (the values the eigen-decomposition returned on the
        on x on matrix of the branch taken, machine epsilon, the double 1e-15) additionally
@@ -166,9 +168,20 @@ let handle line =
        let r = (match List.nth par 0 with [s] -> int_of_string s | _ -> 0) in
        let w = mat_fun (Array.of_list (psec 1)) d and b = arr_fun (Array.of_list (psec 2)) in
        let f a = lin dd w b (nat_of_int a) in
-       String.concat " " [ out "coff" (List.map (fun a -> center_off dd w data (nat_of_int a)) (range r));
+       let zx =
+         if kind = "Z" && List.length par >= 8 then begin
+           let on = (match List.nth par 3 with [s] -> int_of_string s | _ -> 0) in
+           let od = arr_fun (Array.of_list (psec 4)) and ou = mat_fun (Array.of_list (psec 5)) on in
+           let epsm = List.hd (psec 6) in
+           match zca_train q_sqrt (fun _ _ -> (ou, od)) epsm dd (List.hd (psec 7)) data with
+           | None -> [ "zW=NONE" ]
+           | Some ((zw, zo), met) ->
+             [ out "zW" (List.concat_map (fun a -> List.map (fun j -> zw (nat_of_int a) (nat_of_int j)) (range d)) (range d));
+               out "zoff" (List.map (fun a -> zo (nat_of_int a)) (range d)); out "zmet" met ]
+         end else [] in
+       String.concat " " ([ out "coff" (List.map (fun a -> center_off dd w data (nat_of_int a)) (range r));
                            out "omean" (List.map (fun a -> mean (f a) data) (range r));
-                           out "ocov" (List.concat_map (fun a -> List.map (fun c -> cov (f a) (f c) data) (range r)) (range r)) ]
+                           out "ocov" (List.concat_map (fun a -> List.map (fun c -> cov (f a) (f c) data) (range r)) (range r)) ] @ zx)
      | _ ->
        let k = (match List.nth par 0 with [s] -> int_of_string s | _ -> 0) in
        let ev = arr_fun (Array.of_list (psec 1)) and v = mat_fun (Array.of_list (psec 2)) k in
